@@ -358,7 +358,10 @@ SIG_OPEN_PAREN = 'C05:open:newunit-value-with-parentheses'
 SIG_OPEN_CONVERT_FIRST = 'C05:open:convert-first'
 SIG_OPEN_TAIL = 'C05:open:rest-of-line-duplicated'
 SIG_OPEN_BOTH = 'C05:open:convert-lost-with-newunit'
-OPEN_SIGS = [SIG_OPEN_LITERAL, SIG_OPEN_PAREN, SIG_OPEN_CONVERT_FIRST, SIG_OPEN_TAIL, SIG_OPEN_BOTH]
+# an OPEN statement that is continued over several lines and carries NEWUNIT= together with CONVERT=: the re-insertion
+# works on single source lines and writes a mangled statement (found after the single-line defects were repaired)
+SIG_OPEN_CONT = 'C05:open:continued-statement-with-newunit-and-convert'
+OPEN_SIGS = [SIG_OPEN_CONT, SIG_OPEN_LITERAL, SIG_OPEN_PAREN, SIG_OPEN_CONVERT_FIRST, SIG_OPEN_TAIL, SIG_OPEN_BOTH]
 
 
 def _literal_spans(line):
@@ -404,6 +407,9 @@ def open_traits(op):
         traits.add(SIG_OPEN_TAIL)
     if nu and cv:
         traits.add(SIG_OPEN_BOTH)
+    specs = [k for k, _ in op['specs']]
+    if op.get('cont') is not None and 'newunit' in specs and 'convert' in specs:
+        traits.add(SIG_OPEN_CONT)
     return traits
 
 
@@ -434,7 +440,9 @@ def repair(case, ctx):
             break
         sig = hit[0]
         ctx.exclude(sig.replace('C05:', 'known:'))
-        if sig == SIG_OPEN_LITERAL:
+        if sig == SIG_OPEN_CONT:
+            op['cont'] = None
+        elif sig == SIG_OPEN_LITERAL:
             op['specs'] = [[k, PLAIN_FILE if k == 'file' else v] for k, v in op['specs']]
         elif sig == SIG_OPEN_PAREN:
             op['specs'] = [[k, 'u' if k == 'newunit' else v] for k, v in op['specs']]
